@@ -6,7 +6,44 @@ from props import _maps
 
 ID = 'C16'
 LEAN_MODULES = ['Proofs.C16']
-REQUIRED = []
+REQUIRED = ['C16.subsetVector_length',
+            'C16.subsetVector_spec',
+            'C16.subsetVector_size',
+            'C16.subsetVector_unique',
+            'C16.chainVector_length',
+            'C16.chainVector_runs',
+            'C16.chainVector_range',
+            'C16.total_sample_to_cycle',
+            'C16.total_cycle_to_samples',
+            'C16.total_subset_to_cycle',
+            'C16.total_cycle_to_subset',
+            'C16.total_subset_to_sample',
+            'C16.total_sample_to_subset',
+            'C16.total_chain_to_subset',
+            'C16.total_subset_to_chain',
+            'C16.total_cycle_to_chain',
+            'C16.total_chain_to_cycle',
+            'C16.total_chain_to_samples',
+            'C16.total_sample_to_chain',
+            'C16.roundtrip_sample_cycle',
+            'C16.roundtrip_cycle_subset',
+            'C16.roundtrip_subset_chain',
+            'C16.roundtrip_sample_subset',
+            'C16.roundtrip_cycle_chain',
+            'C16.roundtrip_sample_chain',
+            'C16.none_iff_sample_to_cycle',
+            'C16.none_iff_cycle_to_subset',
+            'C16.none_iff_sample_to_subset',
+            'C16.none_iff_cycle_to_chain',
+            'C16.none_iff_sample_to_chain',
+            'C16.project_cycles_to_samples',
+            'C16.project_subset_to_cycles',
+            'C16.project_chain_to_subset',
+            'C16.project_subset_to_samples',
+            'C16.project_chain_to_cycles',
+            'C16.project_chain_to_samples',
+            'C16.project_value_eq_map',
+            'C16.cycle_to_samples_contiguous']
 TRUSTED = ['indices handed to the maps are non-negative Python ints (negative indexing is not part of the modelled interface)',
            'label vectors are 1-d integer numpy arrays; subset and chain vectors are those returned by the real '
            'get_subset_vector / get_chain_vector on the same run']
